@@ -20,6 +20,8 @@ pub const TYPES: &[(&str, &str)] = &[
     ("percent", "([\\p{Ll}\\p{Lu}\\p{Lt}0-9]|\\-|\\.|\\(|\\)|%[0-9A-Z]{2})+?"),
     ("upper", "([\\p{Lu}\\p{Lt}])+?"),
     ("anything", "(?:.+?)"),
+    // an enum with non-ASCII alternatives, for hosts and header values (which the request carries unencoded)
+    ("enumx", "(?:caf\u{e9}|th\u{e9})"),
 ];
 
 fn type_regex(t: &str) -> &'static str {
@@ -36,6 +38,7 @@ fn accepted(t: &'static str) -> BoxedStrategy<String> {
         "date" => (1990u32..2030, 1u32..=12, 1u32..=28).prop_map(|(y, m, d)| format!("{y}-{m:02}-{d:02}")).boxed(),
         "percent" => "[a-zA-Z0-9]{1,3}([.()-][a-z0-9]{1,2})?(%[0-9A-F]{2}[a-z]?)?".boxed(),
         "upper" => "[A-Z]{1,4}".boxed(),
+        "enumx" => pick(vec!["caf\u{e9}".to_string(), "th\u{e9}".to_string()]),
         _ => "[a-z0-9]{1,4}(/[a-z0-9]{1,3})?".boxed(),
     }
 }
@@ -49,6 +52,7 @@ fn rejected(t: &'static str) -> BoxedStrategy<String> {
         "uuid" => "[a-f0-9]{7}".boxed(),
         "date" => pick(vec!["2024-13-01".to_string(), "2024-00-10".to_string(), "2024-1-1".to_string(), "x".to_string()]),
         "percent" => prop_oneof!["[a-z]{0,2}[_!][a-z]{0,1}".boxed(), Just(String::new()).boxed()].boxed(),
+        "enumx" => pick(vec!["cafe".to_string(), "th".to_string(), String::new(), "caf\u{e9}s".to_string()]),
         _ => Just(String::new()).boxed(),
     }
 }
@@ -384,10 +388,10 @@ fn transformer_strategy() -> BoxedStrategy<TransformerSpec> {
 
 /// (template with {i} slots, allowed types for each slot)
 const DASH_OK: &[&str] = &["integer", "lower", "enum", "upper"];
-const DOT_OK: &[&str] = &["integer", "lower", "lowerdash", "enum"];
+const DOT_OK: &[&str] = &["integer", "lower", "lowerdash", "enum", "enumx"];
 const SLASH_OK: &[&str] = &["integer", "lower", "lowerdash", "enum", "uuid", "date", "percent", "upper"];
 const LAST_OK: &[&str] = &["integer", "lower", "lowerdash", "enum", "uuid", "date", "percent", "upper", "anything"];
-const HEADER_OK: &[&str] = &["integer", "lower", "enum", "uuid"];
+const HEADER_OK: &[&str] = &["integer", "lower", "enum", "uuid", "enumx"];
 
 struct Layout {
     path: &'static str,
@@ -409,6 +413,10 @@ const LAYOUTS: &[Layout] = &[
     Layout { path: "/x/{1}", host: None, header: Some("v-{0}"), slots: &[("header", HEADER_OK), ("path", LAST_OK)] },
     Layout { path: "/x", host: None, header: Some("{0}/{1}"), slots: &[("header", HEADER_OK), ("header", HEADER_OK)] },
     Layout { path: "/y/{2}", host: Some("{0}.example.org"), header: Some("Val-{1}"), slots: &[("host", DOT_OK), ("header", HEADER_OK), ("path", LAST_OK)] },
+    // one marker used twice in a template (both occurrences instantiated with the same string)
+    Layout { path: "/r/{0}/again/{0}", host: None, header: None, slots: &[("path", SLASH_OK)] },
+    Layout { path: "/r/{0}/{1}/{0}", host: None, header: None, slots: &[("path", SLASH_OK), ("path", SLASH_OK)] },
+    Layout { path: "/z", host: None, header: Some("{0}/{0}"), slots: &[("header", HEADER_OK)] },
 ];
 
 fn piece_strategy(names: Vec<String>) -> BoxedStrategy<String> {
